@@ -1,9 +1,12 @@
 (** C16 — mount + clean unmount leaves the volume byte-identical.  Proved: serialising a freshly parsed FAT reproduces
     every byte of every complete entry for all three widths — FAT32 exactly, reserved upper bits included — for every
     table length; setting and clearing the two flags is the identity on a clean volume; serialising the parsed boot
-    sector reproduces its bytes (any layout, in particular the generated ones). *)
-From Coq Require Import ZArith List Bool.
-From PyFatV Require Import Base.Bytes Base.PyEnv Gen.Pure Model.Codec Proofs.FatCodec Proofs.Session.
+    sector reproduces its bytes (any layout, in particular the generated ones).  And the session itself, through the
+    device: C16_session — if the boot sector(s) and every FAT copy on the device are the serialisation of what the mounted
+    state holds and the volume is clean, then after the read-write mount's dirty marking and the close's clean marking the
+    device holds, at EVERY address, the byte it held before, and header and table in memory are the ones before. *)
+From Coq Require Import ZArith List Bool Lia FMapPositive.
+From PyFatV Require Import Base.Bytes Base.PyEnv Gen.Pure Model.Codec Model.Dir Model.FS Proofs.FatCodec Proofs.Session Proofs.Device Proofs.DirCodec Proofs.DirState Proofs.FatState Proofs.HdrState Proofs.Identity.
 Import ListNotations.
 Open Scope Z_scope.
 
@@ -28,3 +31,58 @@ Theorem C16_bootsector : forall lay bs, layout_ok lay -> bytes_ok bs -> layout_s
   ser_layout lay (parse_layout lay bs) = firstn (Z.to_nat (layout_size lay)) bs.
 Proof. exact ser_parse_layout. Qed.
 Print Assumptions C16_bootsector.
+
+Theorem C16_session : forall s0 s1 s2,
+  let d := s_dev s0 in let sz := s_dsize s0 in let h0 := s_h s0 in let fat0 := s_fat s0 in
+  let is32 := ft s0 =? Gen.FAT_TYPE_FAT32 in let bk := BPB_BkBootSec h0 * bps s0 in
+  dev_ok d ->
+  mark_dirty s0 = Ok s1 -> mark_clean s1 = Ok s2 ->
+  Z.land (BS_Reserved1 h0) Gen.FAT_DIRTY_BIT_MASK = 0 ->
+  (forall m, shutdown_mask (ft s0) = Some m -> 0 <= m /\ Z.land (nthZ fat0 1) m = m /\ 1 < lenZ fat0) ->
+  Forall (orig d sz) (bpbW h0 is32 bk) ->
+  (forall m, shutdown_mask (ft s0) = Some m ->
+     Forall (orig d sz) (fatW (fat_start s0) (fat_bytes s0) (pack_fat (ft s0) fat0 (s_hi s0)) 0 (Z.to_nat (BPB_NumFATs h0)))) ->
+  (forall a, 0 <= a -> dbyte (s_dev s2) a = dbyte d a) /\ s_h s2 = h0 /\ s_fat s2 = fat0.
+Proof. exact session_identity. Qed.
+Print Assumptions C16_session.
+
+(** non-vacuity: a FAT16 volume of 4400 sectors (both FAT copies and the boot sector written by the model), marked dirty
+    (FAT[1] and BS_Reserved1 really change on the device) and clean again *)
+Definition ex16_hdr : hdr := mkHdr [235;60;144] (repeat 77 8) 512 1 1 2 64 4400 248 17 0 0 0 0 0 0 0 0 0 0 [] 128 0 41 7 (repeat 32 11) (repeat 70 8) false.
+Definition ex16_init : st :=
+  mkSt ex16_hdr (set_bytes_per_cluster (Gen.parse_header_geometry pf_init ex16_hdr) 512) false false ([65528; 65535; 65535] ++ repeat 0 4349) [] 0
+       (PositiveMap.empty _) (4400 * 512) [] [].
+Definition ex16_s0 : st :=
+  match (do a <- write_bpb ex16_init; flush_fat a) with Ok s => upd_dev s (s_dev s) [] | Err _ => ex16_init end.
+Definition ex16_s1 : st := match mark_dirty ex16_s0 with Ok s => s | Err _ => ex16_s0 end.
+Definition ex16_s2 : st := match mark_clean ex16_s1 with Ok s => s | Err _ => ex16_s1 end.
+Example C16_session_example :
+  ft ex16_s0 = 16 /\ mark_dirty ex16_s0 = Ok ex16_s1 /\ mark_clean ex16_s1 = Ok ex16_s2 /\
+  dbyte (s_dev ex16_s1) 37 = 1 /\ dbyte (s_dev ex16_s0) 37 = 0 /\ dbyte (s_dev ex16_s1) 515 = 127 /\ dbyte (s_dev ex16_s0) 515 = 255 /\
+  (forall a, 0 <= a -> dbyte (s_dev ex16_s2) a = dbyte (s_dev ex16_s0) a).
+Proof.
+  assert (E1 : mark_dirty ex16_s0 = Ok ex16_s1) by (vm_compute; reflexivity).
+  assert (E2 : mark_clean ex16_s1 = Ok ex16_s2) by (vm_compute; reflexivity).
+  split; [vm_compute; reflexivity|]. split; [exact E1|]. split; [exact E2|].
+  split; [vm_compute; reflexivity|]. split; [vm_compute; reflexivity|]. split; [vm_compute; reflexivity|]. split; [vm_compute; reflexivity|].
+  assert (Hd : dev_ok (s_dev ex16_s0)).
+  { assert (Hw : exists sa, write_bpb ex16_init = Ok sa /\ exists sb, flush_fat sa = Ok sb /\ s_dev ex16_s0 = s_dev sb).
+    { destruct (write_bpb ex16_init) as [sa|] eqn:Ea; [|vm_compute in Ea; discriminate]. exists sa. split; [reflexivity|].
+      destruct (flush_fat sa) as [sb|] eqn:Eb.
+      - exists sb. split; [reflexivity|]. unfold ex16_s0. rewrite Ea. cbn [bind]. rewrite Eb. reflexivity.
+      - exfalso. assert (X : (do a <- write_bpb ex16_init; flush_fat a) = Err e) by (rewrite Ea; cbn [bind]; exact Eb). vm_compute in X. discriminate. }
+    destruct Hw as (sa & Ea & sb & Eb & ->).
+    apply wrote_write_bpb in Ea. unfold flush_fat in Eb. destruct (s_ro sa); [discriminate|]. apply wrote_flush_copies in Eb.
+    destruct Eb as (_ & Db & _). rewrite Db. rewrite (proj1 (proj2 Ea)). apply apply_log_ok; [apply apply_log_ok; [apply dev_ok_empty|]|].
+    - apply Forall_forall. intros w Hw. assert (Hb : forallb (fun w => 0 <=? fst w) (bpbW (s_h ex16_init) (ft ex16_init =? Gen.FAT_TYPE_FAT32) (BPB_BkBootSec (s_h ex16_init) * bps ex16_init)) = true) by (vm_compute; reflexivity).
+      rewrite forallb_forall in Hb. specialize (Hb w Hw). lia.
+    - apply Forall_forall. intros w Hw.
+      match type of Hw with In _ ?L => assert (Hb : forallb (fun w => 0 <=? fst w) L = true) end.
+      { destruct Ea as (_ & _ & Hh & Hp & Hf & Hhi & _). unfold fat_start, fat_bytes, bps, ft. rewrite Hh, Hp, Hf, Hhi. vm_compute. reflexivity. }
+      rewrite forallb_forall in Hb. specialize (Hb w Hw). lia. }
+  apply (session_identity ex16_s0 ex16_s1 ex16_s2 Hd E1 E2).
+  - vm_compute. reflexivity.
+  - intros m Hm. vm_compute in Hm. inversion Hm; subst m. vm_compute. repeat split; try discriminate; reflexivity.
+  - apply origb_orig. vm_compute. reflexivity.
+  - intros m _. apply origb_orig. vm_compute. reflexivity.
+Qed.
